@@ -48,7 +48,7 @@ ACTIONS = ('create', 'advance', 'force')
 # A fourth placement, NOT part of the enumerated quantifier (see ASSUMPTIONS): the third party force-pushes a source
 # branch BACK to its parent. Bert-E's `push --all` then fast-forwards the branch to the tip it had cloned
 # (Lean: C08_rewind_race_witness). Set to ('rewind',) to enumerate it too; its oracle failure has the key REWIND_KEY.
-EXTRA_ACTIONS = ()
+EXTRA_ACTIONS = ('rewind',)
 REWIND_KEY = 'push-all-restores-concurrently-rewound-branch'
 FORCE_TOKENS = {'--force', '-f', '--force-with-lease', '--force-if-includes', '--mirror', '--delete', '-d'}
 DEST_RE = re.compile(r'^(development|stabilization|hotfix)/[0-9.]+$')
@@ -600,7 +600,7 @@ def replay_corpus(use_model, base, refuse_all=True):
 def correspondence(ctx):
     res = Result()
     res.rule = RULE
-    n = (40 if ctx.tier == 'quick' else 400) * ctx.scale
+    n = (24 if ctx.tier == 'quick' else 400) * ctx.scale
     base = common.scratch()
     use_model = ctx.model is not None
     outs = replay_corpus(use_model, base)
